@@ -1,3 +1,4 @@
+import Mp.MarkProofs
 import Mp.ProofsG
 import Mp.NullProofs
 /-! C19 — property theorems (proved in the imported modules; statements are checked there, axioms audited here). -/
@@ -11,3 +12,5 @@ import Mp.NullProofs
 #print axioms Mp.isNull_table
 #print axioms Mp.isEmpty_table
 #print axioms Mp.null_predicates_reject_arguments
+#print axioms Mp.splitMark_marked
+#print axioms Mp.splitMark_unmarked
